@@ -7,7 +7,8 @@ ID = "C16"
 RULE = ("case = history (<= 60 operations, each a separate top-level evaluation from C so that no VM temporary outlives an operation) over "
         "keys, ephemerons and ports: mk-key, root/unroot, mk-eph with value in {fresh datum, datum referencing the key, another key, "
         "another ephemeron}, drop-eph, gc, query, open/read/close/drop port (file ports via fopen, descriptor ports on dup'ed fds with and "
-        "without no-close), fd-count, exhaustion loop under a lowered RLIMIT_NOFILE, destroy-context; forced collections at tape-marked "
+        "without no-close), fd-count, exhaustion loop under a lowered RLIMIT_NOFILE, destroy-context; fault: tape-chosen close() calls release the "
+        "descriptor but report EINTR / EIO; forced collections at tape-marked "
         "operation boundaries and at allocation indices inside operations. A reachability model (ephemeron value edges count only while "
         "the key is model-alive) predicts every query. Non-trivial: >= 2 forced collections and >= 1 query or descriptor check evaluated; "
         "distinct = event-log hash.")
@@ -16,10 +17,11 @@ ASSUMPTIONS = [
     "complete operation before a forced full collection (the one case where no register or C local can still hold them)",
     "descriptor promptness (closed by the next forced collection after the owner was dropped) is asserted under the same rule",
     "interposed fopen/fclose/open/close define what 'released' means; descriptors opened by other means are not tracked",
+    "a close() that reports EINTR / EIO has released the descriptor (Linux semantics): the owner must not close it again",
 ]
 COMPONENTS = {"real": ["mark/weak-reset/finalize/sweep", "ephemerons (chibi weak)", "fileno table (ephemerons keyed by fileno objects)", "port finalizers",
                        "EMFILE -> collect -> retry in open-*-file", "sexp_destroy_context"],
-              "stub": ["collection schedule", "RLIMIT_NOFILE", "libc fopen/fclose/close wrappers (log + forward)"]}
+              "stub": ["collection schedule", "RLIMIT_NOFILE", "libc fopen/fclose/close wrappers (log + forward; close may report a failure after releasing)"]}
 BUDGET = {"quick": {"seconds": 50, "cases": 6000, "min_cases": 250}, "thorough": {"seconds": 900, "cases": 400000}}
 CONFIGS = {
     "sim": {"variant": "sim", "imports": ["(chibi weak)", "(only (chibi) open-input-file-descriptor)"], "timeout_ms": 60000},
